@@ -11,6 +11,7 @@
                           +  conv₁ · Σ_{free positions of the oSQTH/WETH pool} value at the pool price
                           +  conv₂ · ((Σ_{lent positions} value at the index price + Σ vault collateral) · WETH − Σ short · mark)
                           +  conv₃ · (GLP · glp_price + reward · wavax_price / 10³⁰)
+                          +  conv₄ · (option cash + Σ amount · round(mark))          [on a bar of the hourly grid; off the grid the cached premium]
 
   with `conv_m = 1` if market m's quote token is the account's, else the bar's price of that token — every holding once: the count
   invariant `Once` of the shared container is carried along the whole run (`C01_e2e_once_along_the_run`).
@@ -20,6 +21,7 @@ import Proofs.C01.Uni
 import Proofs.C01.SqueethValue
 import Proofs.C01.SqueethDict
 import Proofs.C01.Gmx
+import Proofs.C01.Deribit
 import Demeter.Actuator.Markets
 import Proofs.C01.UniSqueeth
 namespace Demeter
@@ -40,8 +42,10 @@ theorem e2e_opCall_once (S : Setup) (w : World) (m : Nat) (tag : String) (h : Sq
   · split
     · split <;> exact h
     · split
-      · exact h
-      · exact e2e_sqCall_once S w _ h
+      · split <;> exact h
+      · split
+        · exact h
+        · exact e2e_sqCall_once S w _ h
 
 theorem e2e_eff_once (S : Setup) (e : Ev) (w : World) (h : Squeeth.Once w.sq) : Squeeth.Once (marketsEff S e w).sq := by
   cases e with
@@ -53,14 +57,18 @@ theorem e2e_eff_once (S : Setup) (e : Ev) (w : World) (h : Squeeth.Once w.sq) : 
       · split <;> exact h
       · split
         · split <;> exact h
-        · split <;> exact h
+        · split
+          · exact h
+          · split <;> exact h
   | update ts m =>
     simp only [marketsEff, updCall]
     split
     · exact h
     · split
       · exact e2e_sqCall_once S w _ h
-      · split <;> exact h
+      · split
+        · exact h
+        · split <;> exact h
   | opOk ts hk m tag => exact e2e_opCall_once S w m tag h
   | opRej ts hk m tag c => cases c <;> [exact e2e_opCall_once S w m tag h; exact h]
   | opFree ts hk m tag ok => exact e2e_opCall_once S w m tag h
@@ -81,8 +89,10 @@ theorem e2e_opCall_dict (S : Setup) (w : World) (m : Nat) (tag : String) (h : Sq
   · split
     · split <;> exact h
     · split
-      · exact h
-      · exact e2e_sqCall_dict S w _ h
+      · split <;> exact h
+      · split
+        · exact h
+        · exact e2e_sqCall_dict S w _ h
 
 theorem e2e_eff_dict (S : Setup) (e : Ev) (w : World) (h : Squeeth.Dict w.sq) : Squeeth.Dict (marketsEff S e w).sq := by
   cases e with
@@ -94,14 +104,18 @@ theorem e2e_eff_dict (S : Setup) (e : Ev) (w : World) (h : Squeeth.Dict w.sq) : 
       · split <;> exact h
       · split
         · split <;> exact h
-        · split <;> exact h
+        · split
+          · exact h
+          · split <;> exact h
   | update ts m =>
     simp only [marketsEff, updCall]
     split
     · exact h
     · split
       · exact e2e_sqCall_dict S w _ h
-      · split <;> exact h
+      · split
+        · exact h
+        · split <;> exact h
   | opOk ts hk m tag => exact e2e_opCall_dict S w m tag h
   | opRej ts hk m tag c => cases c <;> [exact e2e_opCall_dict S w m tag h; exact h]
   | opFree ts hk m tag ok => exact e2e_opCall_dict S w m tag h
@@ -137,9 +151,11 @@ theorem C01_e2e_row_is_wallet_plus_markets (S : Setup) (src : Option Int) (w : W
           let c1 ← S.conv src Gen.sqWethName
           let c2 ← S.conv src S.sqQuote
           let c3 ← S.conv src S.gmxQuote
+          let c4 ← S.conv src S.derCfg.token
           pure (a + (nvOfUni (Uni.getMarketBalance S.K S.pool w.uniIn) * c0 +
             (Squeeth.uniNetValue S.cx w.env w.sqIn * c1 + (nvOfSq (Squeeth.marketBalance S.cx w.env w.sqIn) * c2 +
-              (GmxV1.netValue S.cx w.genv w.gmxIn * c3 + 0)))))) := by
+              (GmxV1.netValue S.cx w.genv w.gmxIn * c3 +
+                (nvOfDer (Deribit.getMarketBalance S.derCx S.derCfg w.derIn).1 * c4 + 0))))))) := by
   rw [C01_run_row_is_plain_sum]
   simp only [marketsValuation, marketsBalances, specNetValue, specMarkets, convFactor, Setup.conv]
   generalize specWallet (S.prices src) w.wallet = oa
@@ -147,7 +163,8 @@ theorem C01_e2e_row_is_wallet_plus_markets (S : Setup) (src : Option Int) (w : W
   generalize (if Gen.sqWethName = S.quote then some (1 : Rat) else AList.get? (S.prices src) Gen.sqWethName) = o1
   generalize (if S.sqQuote = S.quote then some (1 : Rat) else AList.get? (S.prices src) S.sqQuote) = o2
   generalize (if S.gmxQuote = S.quote then some (1 : Rat) else AList.get? (S.prices src) S.gmxQuote) = o3
-  cases oa <;> cases o0 <;> cases o1 <;> cases o2 <;> cases o3 <;> rfl
+  generalize (if S.derCfg.token = S.quote then some (1 : Rat) else AList.get? (S.prices src) S.derCfg.token) = o4
+  cases oa <;> cases o0 <;> cases o1 <;> cases o2 <;> cases o3 <;> cases o4 <;> rfl
 
 /-- **C01 end to end, one row.**  In any world `w` in which the three `get_market_balance` calls return (market 0: a status row, its
     price converts, every free position's amounts compute; Squeeth: the balance `bs`), with the count invariant and dict-shaped
@@ -155,32 +172,36 @@ theorem C01_e2e_row_is_wallet_plus_markets (S : Setup) (src : Option Int) (w : W
     position of market 0 that is not lent out, plus every free position of the oSQTH/WETH pool at the pool price, plus every lent
     position at the index price inside its vault's collateral, plus the ETH collateral, minus the short at mark, each converted by
     its market's quote-token price — every holding exactly once. -/
-theorem C01_e2e_row_value (S : Setup) (hK : S.K.cx = NumCtx.exact) (hcx : S.cx = NumCtx.exact) (src : Option Int) (w : World)
+theorem C01_e2e_row_value (S : Setup) (hK : S.K.cx = NumCtx.exact) (hcx : S.cx = NumCtx.exact) (hder : S.derCx = Deribit.DCtx.exact)
+    (src : Option Int) (w : World) (hgrid : w.der.onGrid = true)
     (row : Uni.Row) (sqrt : Nat) (amt : Uni.Pos → Rat × Rat) (hrow : w.uni.row = some row)
     (hsqrt : S.K.priceToSqrt S.pool row.price = .ok sqrt)
     (hamt : ∀ p ∈ w.uni.positions, p.transferred = false → S.K.amounts S.pool sqrt p.lower p.upper p.liq p.liqDec = .ok (amt p))
     (bs : Squeeth.Balance) (hbs : Squeeth.marketBalance NumCtx.exact w.env w.sqIn = .ok bs)
     (honce : Squeeth.Once w.sq) (hnv : (w.sq.vaults.map (·.1)).Nodup) (hnp : (w.sq.positions.map (·.1)).Nodup)
-    (a c0 c1 c2 c3 : Rat) (ha : specWallet (S.prices src) w.wallet = some a) (h0 : S.conv src S.pool.quoteTok = some c0)
-    (h1 : S.conv src Gen.sqWethName = some c1) (h2 : S.conv src S.sqQuote = some c2) (h3 : S.conv src S.gmxQuote = some c3) :
+    (a c0 c1 c2 c3 c4 : Rat) (ha : specWallet (S.prices src) w.wallet = some a) (h0 : S.conv src S.pool.quoteTok = some c0)
+    (h1 : S.conv src Gen.sqWethName = some c1) (h2 : S.conv src S.sqQuote = some c2) (h3 : S.conv src S.gmxQuote = some c3)
+    (h4 : S.conv src S.derCfg.token = some c4) :
     (acctRow NumCtx.exact (marketsValuation S) src w).map (·.netValue) =
       some (a + Uni.sumOver (Uni.posValue S.pool row.price amt) w.uni.positions * c0 +
         Squeeth.sumIf (fun kp => !kp.2.transferred) (Squeeth.poolVal w.env) w.sq.positions * c1 +
         ((Squeeth.sumIf (fun kp => kp.2.transferred) (Squeeth.idxVal w.env) w.sq.positions + (w.sq.vaults.map (·.2.coll)).sum) * w.env.weth -
           (w.sq.vaults.map (·.2.short)).sum * (w.env.osqth * w.env.weth)) * c2 +
-        (w.gmx.glp * w.genv.glpPrice + w.gmx.reward * (w.genv.wavaxPrice / 10 ^ 30)) * c3) := by
+        (w.gmx.glp * w.genv.glpPrice + w.gmx.reward * (w.genv.wavaxPrice / 10 ^ 30)) * c3 +
+        (w.der.cash + Deribit.markValue S.derCfg w.der.book w.der.positions) * c4) := by
+  obtain ⟨bd, hbd, hdnet, _⟩ := C01_deribit_open_bar_value S.derCfg w.derIn hgrid
   obtain ⟨b, hb, hnet, _⟩ := C01_uni_balance_eq_spec S.K hK S.pool w.uniIn row sqrt amt hrow hsqrt hamt
   -- the Squeeth side: raw-state formula, then the lent positions instead of the vaults' references
   obtain ⟨cs, hcs, _, _, hsnet, _⟩ := C01_squeeth_balance_from_raw_state w.env w.sqIn bs hbs
   have hsum := Squeeth.sum_effColl w.env w.sqIn w.sqIn.vaults cs (Squeeth.get?_of_mem _ hnv) hcs
   rw [Squeeth.sum_lentPart w.env w.sqIn (e2e_once_wallet honce w.wallet) hnv hnp] at hsum
-  rw [C01_e2e_row_is_wallet_plus_markets, ha, h0, h1, h2, h3, hcx, hb, hbs, C01_squeeth_pool_value_is_sum_over_free,
+  rw [C01_e2e_row_is_wallet_plus_markets, ha, h0, h1, h2, h3, h4, hcx, hder, hb, hbs, hbd, C01_squeeth_pool_value_is_sum_over_free,
     (C01_gmx_v1_balance w.genv w.gmxIn).1]
-  simp only [nvOfUni, nvOfSq, hnet, hsnet, hsum]
+  simp only [nvOfUni, nvOfSq, nvOfDer, hnet, hsnet, hsum, hdnet]
   show some _ = some _
   congr 1
   show _ = _
-  simp only [World.sqIn, World.uniIn, World.gmxIn]
+  simp only [World.sqIn, World.uniIn, World.gmxIn, World.derIn]
   ring
 
 /-- **C01 end to end, every bar of every run.**  For every configuration, trigger list, script, setup (pool, kernel, data, price rows,
@@ -205,28 +226,32 @@ theorem C01_e2e_run_rows (S : Setup) (w0 : World) (h0 : Squeeth.Once w0.sq) (hd 
     once and is a dict; after ANY calls (`pre`: in particular the calls before the row of bar k, `C01_e2e_run_rows`) the only guards left
     are "the three `get_market_balance` calls return" and "the prices are there" — then the row's net value is the independent valuation,
     every holding exactly once. -/
-theorem C01_e2e_row_value_after_calls (S : Setup) (hK : S.K.cx = NumCtx.exact) (hcx : S.cx = NumCtx.exact) (w0 : World)
+theorem C01_e2e_row_value_after_calls (S : Setup) (hK : S.K.cx = NumCtx.exact) (hcx : S.cx = NumCtx.exact)
+    (hder : S.derCx = Deribit.DCtx.exact) (w0 : World)
     (h0 : Squeeth.Once w0.sq) (hd : Squeeth.Dict w0.sq) (pre : List Ev) (src : Option Int)
+    (hgrid : (worldAfter (marketsValuation S) pre w0).der.onGrid = true)
     (row : Uni.Row) (sqrt : Nat) (amt : Uni.Pos → Rat × Rat) (hrow : (worldAfter (marketsValuation S) pre w0).uni.row = some row)
     (hsqrt : S.K.priceToSqrt S.pool row.price = .ok sqrt)
     (hamt : ∀ p ∈ (worldAfter (marketsValuation S) pre w0).uni.positions, p.transferred = false →
       S.K.amounts S.pool sqrt p.lower p.upper p.liq p.liqDec = .ok (amt p))
     (bs : Squeeth.Balance)
     (hbs : Squeeth.marketBalance NumCtx.exact (worldAfter (marketsValuation S) pre w0).env (worldAfter (marketsValuation S) pre w0).sqIn = .ok bs)
-    (a c0 c1 c2 c3 : Rat) (ha : specWallet (S.prices src) (worldAfter (marketsValuation S) pre w0).wallet = some a)
+    (a c0 c1 c2 c3 c4 : Rat) (ha : specWallet (S.prices src) (worldAfter (marketsValuation S) pre w0).wallet = some a)
     (hc0 : S.conv src S.pool.quoteTok = some c0) (hc1 : S.conv src Gen.sqWethName = some c1) (hc2 : S.conv src S.sqQuote = some c2)
-    (hc3 : S.conv src S.gmxQuote = some c3) :
+    (hc3 : S.conv src S.gmxQuote = some c3) (hc4 : S.conv src S.derCfg.token = some c4) :
     let w := worldAfter (marketsValuation S) pre w0
     (acctRow NumCtx.exact (marketsValuation S) src w).map (·.netValue) =
       some (a + Uni.sumOver (Uni.posValue S.pool row.price amt) w.uni.positions * c0 +
         Squeeth.sumIf (fun kp => !kp.2.transferred) (Squeeth.poolVal w.env) w.sq.positions * c1 +
         ((Squeeth.sumIf (fun kp => kp.2.transferred) (Squeeth.idxVal w.env) w.sq.positions + (w.sq.vaults.map (·.2.coll)).sum) * w.env.weth -
           (w.sq.vaults.map (·.2.short)).sum * (w.env.osqth * w.env.weth)) * c2 +
-        (w.gmx.glp * w.genv.glpPrice + w.gmx.reward * (w.genv.wavaxPrice / 10 ^ 30)) * c3) :=
-  C01_e2e_row_value S hK hcx src _ row sqrt amt hrow hsqrt hamt bs hbs (C01_e2e_once_along_the_run S w0 h0 pre)
-    (C01_e2e_dict_along_the_run S w0 hd pre).1 (C01_e2e_dict_along_the_run S w0 hd pre).2 a c0 c1 c2 c3 ha hc0 hc1 hc2 hc3
+        (w.gmx.glp * w.genv.glpPrice + w.gmx.reward * (w.genv.wavaxPrice / 10 ^ 30)) * c3 +
+        (w.der.cash + Deribit.markValue S.derCfg w.der.book w.der.positions) * c4) :=
+  C01_e2e_row_value S hK hcx hder src _ hgrid row sqrt amt hrow hsqrt hamt bs hbs (C01_e2e_once_along_the_run S w0 h0 pre)
+    (C01_e2e_dict_along_the_run S w0 hd pre).1 (C01_e2e_dict_along_the_run S w0 hd pre).2 a c0 c1 c2 c3 c4 ha hc0 hc1 hc2 hc3 hc4
 
-/-! ### non-vacuity: three bars, four markets (the GMX market holds 50 GLP of a supply of 100 and accrues its reward in `update()` every bar).  Bar 0: `on_bar` adds liquidity on market 0 and opens a vault with the LP position
+/-! ### non-vacuity: three bars, five markets (the GMX market holds 50 GLP of a supply of 100 and accrues its reward in `update()` every bar; the
+    option market holds 2 ETH of cash, `on_bar` of bar 2 deposits 1 ETH more).  Bar 0: `on_bar` adds liquidity on market 0 and opens a vault with the LP position
     (18000, 21000) of the oSQTH/WETH pool as collateral, minting 1 oSQTH; bar 1: `on_bar` buys 3 oSQTH through the pool (not a `write_func`).
     Market 0 is quoted in token "a" (price 3), the pool in WETH, the Squeeth market in USD = the account's quote token. -/
 namespace Core
@@ -234,24 +259,29 @@ def e2eSetup : Setup :=
   { quote := "USD", K := Uni.c01Kern, pool := Uni.c01Pool, minError := 0, cx := NumCtx.exact,
     uniRow := fun src => some { closeTick := 0, curLiq := 1000, in0 := 0, in1 := 0, price := 2 + ((src.getD 0 : Int) : Rat) / 60 },
     sqEnv := fun src => { Squeeth.c01Env with weth := 2000 + ((src.getD 0 : Int) : Rat) },
-    prices := fun src => [("USD", 1), ("a", 3), ("b", 1), ("WETH", 2000 + ((src.getD 0 : Int) : Rat)), ("OSQTH", 200)],
+    prices := fun src => [("USD", 1), ("a", 3), ("b", 1), ("WETH", 2000 + ((src.getD 0 : Int) : Rat)), ("OSQTH", 200), ("ETH", 2100)],
     uniOp := fun tag => if tag = "add" then some (.addRaw 1 1 20 30 none) else none,
     sqOp := fun tag => if tag = "open" then some (.openMint 2 1 none (some (18000, 21000))) else if tag = "buy" then some (.buy (some 3) none) else none,
     gmxEnv := fun _ => { rows := [], tokenSet := [], glpSupply := 100, aum := 0, usdgSupply := 0, interval := 1, glpPrice := 3 / 2,
-                         wavaxPrice := 20 * 10 ^ 30 } }
+                         wavaxPrice := 20 * 10 ^ 30 },
+    derCx := Deribit.DCtx.exact,
+    derBar := fun ts _ => { now := ts, flagOpen := true, book := [], price := 2100, priceDec := true, ops := [] },
+    derOp := fun tag => if tag = "dep" then some (.deposit 1) else none }
 
 def e2eWorld : World :=
-  { wallet := [("a", 10), ("b", 10), ("WETH", 10), ("OSQTH", 5)], uni := { Uni.c01State with positions := [], wallet := [] },
-    sq := { Squeeth.c01Start with wallet := [] }, env := Squeeth.c01Env, gmx := { glp := 50, reward := 0, wallet := [], actions := [] } }
+  { wallet := [("a", 10), ("b", 10), ("WETH", 10), ("OSQTH", 5), ("ETH", 4)], uni := { Uni.c01State with positions := [], wallet := [] },
+    sq := { Squeeth.c01Start with wallet := [] }, env := Squeeth.c01Env, gmx := { glp := 50, reward := 0, wallet := [], actions := [] },
+    der := { cash := 2, positions := [], book := [], wallet := [], allowNeg := false, actions := [], cache := none, flagOpen := true, now := 0,
+             price := 2100, priceDec := true } }
 
 def e2eCfg : Cfg :=
   { markets := [{ idx := [0, 60, 120], openCb := false }, { idx := [0, 60, 120], openCb := false }, { idx := [0, 60, 120], openCb := false },
-                { idx := [0, 60, 120], openCb := false }],
+                { idx := [0, 60, 120], openCb := false }, { idx := [0, 60, 120], openCb := false }],
     priceIdx := [0, 60, 120], Δ := 60, resample := false }
 
 def e2eScript : Script :=
   { init := [], before := fun _ => [], fire := fun _ _ => [], openCb := fun _ _ => [],
-    on := fun r => if r = 0 then [⟨0, true, "add", true⟩, ⟨2, true, "open", true⟩] else if r = 1 then [⟨1, true, "buy", false⟩] else [],
+    on := fun r => if r = 0 then [⟨0, true, "add", true⟩, ⟨2, true, "open", true⟩] else if r = 1 then [⟨1, true, "buy", false⟩] else [⟨4, true, "dep", false⟩],
     after := fun _ => [], upd := fun _ _ => [] }
 
 /-- the world after the whole run -/
@@ -259,19 +289,22 @@ def e2eEnd : World := worldAfter (marketsValuation e2eSetup) (run e2eCfg [] e2eS
 end Core
 
 example : (run e2eCfg [] e2eScript).err = none ∧ (barIndex e2eCfg).Pairwise (· < ·) := by decide
--- the run moves all three markets and the wallet …
-example : e2eEnd.wallet = [("a", 9), ("b", 9), ("WETH", 7676 / 997), ("OSQTH", 9)] ∧
-    e2eEnd.sq.vaults = [(1, { coll := 2, short := 1, nft := some (18000, 21000) })] ∧
-    e2eEnd.uni.positions.map (fun p => (p.lower, p.upper, p.liq, p.transferred)) = [(20, 30, 3, false)] ∧
-    e2eEnd.sq.positions.map (fun kp => kp.2.transferred) = [true] ∧
-    (e2eEnd.gmx.glp, e2eEnd.gmx.reward) = (50, 90) ∧ (marketsBalances e2eSetup e2eEnd).map (·.nv) =
-      [15, 0, 243745693287264562601009273476519 / 49517601571415210995964968960, 1875] := by decide +kernel
+-- the run moves all five markets and the wallet …
+example : e2eEnd.wallet = [("a", 9), ("b", 9), ("WETH", 7676 / 997), ("OSQTH", 9), ("ETH", 3)] := by decide +kernel
+example : e2eEnd.sq.vaults = [(1, { coll := 2, short := 1, nft := some (18000, 21000) })] ∧
+    e2eEnd.sq.positions.map (fun kp => kp.2.transferred) = [true] := by decide +kernel
+example : e2eEnd.uni.positions.map (fun p => (p.lower, p.upper, p.liq, p.transferred)) = [(20, 30, 3, false)] := by decide +kernel
+example : (e2eEnd.gmx.glp, e2eEnd.gmx.reward) = (50, 90) := by decide +kernel
+example : (e2eEnd.der.cash, e2eEnd.der.onGrid) = (3, true) := by decide +kernel
+example : (marketsBalances e2eSetup e2eEnd).map (·.nv) =
+    [15, 0, 243745693287264562601009273476519 / 49517601571415210995964968960, 1875, 3] := by decide +kernel
 -- … and the hypotheses of `C01_e2e_row_value` hold in it: the balances return, the prices are there, the containers are dicts, `Once`
 example : (Squeeth.marketBalance NumCtx.exact e2eEnd.env e2eEnd.sqIn).toOption.isSome = true ∧
     (e2eEnd.sq.vaults.map (·.1)).Nodup ∧ (e2eEnd.sq.positions.map (·.1)).Nodup ∧
     (specWallet (e2eSetup.prices (some 120)) e2eEnd.wallet).isSome = true ∧
     e2eSetup.conv (some 120) e2eSetup.pool.quoteTok = some 3 ∧ e2eSetup.conv (some 120) Gen.sqWethName = some 2120 ∧
-    e2eSetup.conv (some 120) e2eSetup.sqQuote = some 1 ∧ e2eSetup.conv (some 120) e2eSetup.gmxQuote = some 1 := by decide +kernel
+    e2eSetup.conv (some 120) e2eSetup.sqQuote = some 1 ∧ e2eSetup.conv (some 120) e2eSetup.gmxQuote = some 1 ∧
+    e2eSetup.conv (some 120) e2eSetup.derCfg.token = some 2100 := by decide +kernel
 example : Squeeth.Dict e2eWorld.sq := ⟨by decide, by decide⟩
 example : Squeeth.Once e2eEnd.sq :=
   C01_e2e_once_along_the_run e2eSetup e2eWorld (C01_squeeth_initially_once _ rfl (by
